@@ -34,7 +34,7 @@ type c19Res struct {
 	Panic string   `json:"panic"`
 }
 
-var c19Names = []string{"Timeout", "CorrelationID", "Recoverer", "IgnoreErrors", "InstantAck", "Throttle", "CircuitBreaker", "DelayOnError", "Retry"}
+var c19Names = []string{"Timeout", "CorrelationID", "Recoverer", "IgnoreErrors", "InstantAck", "Throttle", "CircuitBreaker", "DelayOnError", "Retry", "Duplicator"}
 
 func c19Scripts() [][]c19Res {
 	ok0 := c19Res{[]c19Out{}, "nil", "none"}
@@ -159,6 +159,8 @@ func c19Build(name string, cs c19Case) message.HandlerMiddleware {
 	case "DelayOnError":
 		d := &middleware.DelayOnError{InitialInterval: cs.DInit, MaxInterval: cs.DMax, Multiplier: float64(cs.DNum) / float64(cs.DDen)}
 		return d.Middleware
+	case "Duplicator":
+		return middleware.Duplicator
 	case "Retry":
 		return middleware.Retry{MaxRetries: 2, InitialInterval: 0, MaxInterval: 0, Multiplier: 1}.Middleware
 	}
